@@ -38,6 +38,8 @@ func gen(g *kernel.Rng, seed uint64, tier string) *kernel.Plan {
 	wb := g.OneOf(1, 16, 64, 256, 1024, 4096)
 	p.Cfg["wb"] = wb
 	p.Cfg["rsegIn"] = int64(g.Pick(3, 1, 2))
+	p.Cfg["comp"] = int64(g.Pick(3, 1)) // permessage-deflate negotiated and used by the data writer
+	p.Cfg["rlimit"] = g.OneOf(0, 0, 0, 100) // read limit of the endpoint: a 125-byte data frame of the peer ends the reading with a 1009 Close written by the reader
 	nk := g.Range(0, maxK)
 	nd := g.Range(1, 6)
 	for i := 0; i < nd; i++ {
@@ -143,7 +145,7 @@ func run(p *kernel.Plan) (res *kernel.Result) {
 			}
 		case "x":
 		case "p":
-			if len(o.N) < 3 || o.N[1] < 0 || o.N[1] > 125 {
+			if len(o.N) < 3 || o.N[1] < 0 || o.N[1] > 125 || (o.N[0] != 1 && o.N[0] != 2 && o.N[0] != 8 && o.N[0] != 9 && o.N[0] != 10) {
 				res.Invalid = true
 				return
 			}
@@ -165,6 +167,8 @@ func run(p *kernel.Plan) (res *kernel.Result) {
 	} else {
 		o.ServerWB = int(p.C("wb"))
 	}
+	comp := p.C("comp") != 0
+	o.ClientComp, o.ServerComp = comp, comp
 	pr := wsx.NewPair(s, tape, o)
 	eOut, eIn := pr.CC.Out, pr.SC.Out
 	eConn := pr.CC
@@ -185,6 +189,7 @@ func run(p *kernel.Plan) (res *kernel.Result) {
 	readyCh := make(chan struct{}) // publishes the Conn to the other tasks the way an application would
 	calls := make([][]call, 8) // per task: only that task appends
 	var readErr error
+	readErrStep := -1
 	var readMsgs int
 	closedByCloser := false
 
@@ -245,6 +250,7 @@ func run(p *kernel.Plan) (res *kernel.Result) {
 			return
 		}
 		c := under
+		c.EnableWriteCompression(comp)
 		var ddl time.Time // the data writer's write deadline in force
 		ddlKind := int64(0)
 		for i, op := range p.Ops {
@@ -430,10 +436,14 @@ func run(p *kernel.Plan) (res *kernel.Result) {
 		if under == nil {
 			return
 		}
+		if rl := p.C("rlimit"); rl > 0 {
+			under.SetReadLimit(rl)
+		}
 		for {
 			_, _, err := under.ReadMessage()
 			if err != nil {
 				readErr = err
+				readErrStep = s.Now()
 				return
 			}
 			readMsgs++
@@ -565,7 +575,7 @@ func run(p *kernel.Plan) (res *kernel.Result) {
 	{
 		fr := frames
 		var verr error
-		msgs, ctrl, verr = ref.WSValidate(fr, role == 0, false)
+		msgs, ctrl, verr = ref.WSValidate(fr, role == 0, comp)
 		if verr != nil && verr.Error() != "stream ends inside a fragmented message" {
 			return res.Fail("C15/wire-rfc6455", "%v", verr)
 		}
@@ -624,6 +634,9 @@ func run(p *kernel.Plan) (res *kernel.Result) {
 			if op.K == "p" && op.N[0] == 8 {
 				peerClose = true // the reader echoes it: a Close frame written from the reading goroutine
 			}
+			if rl := p.C("rlimit"); rl > 0 && op.K == "p" && (op.N[0] == 1 || op.N[0] == 2) && op.N[1] > rl {
+				peerClose = true // the reader answers the oversize message with a 1009 Close
+			}
 		}
 		sticky := false
 		for _, c := range calls[0] {
@@ -642,6 +655,14 @@ func run(p *kernel.Plan) (res *kernel.Result) {
 			}
 			if c.err == websocket.ErrCloseSent && (peerClose || (closeCallAt >= 0 && closeCallAt <= c.step1)) {
 				ok = true
+			}
+			if closeIdx >= 0 {
+				// a Close frame (whoever wrote it, e.g. the reader after a rule
+				// violation of the peer) reached the wire before this call returned:
+				// a call in progress at that moment may fail in whatever way
+				if cfs := eOut.StepReached(int64(hs + frames[closeIdx].End)); cfs >= 0 && cfs <= c.step1 {
+					ok = true
+				}
 			}
 			if !ok {
 				return res.Fail("C15/data-write-failed", "%s (steps %d..%d) failed with %v although no Close frame had been sent, the connection was not closed and neither its own deadline nor any caller's own transport deadline had expired (transport write timeouts: %d, under another call's deadline: %d)", c.what, c.step0, c.step1, c.err, eConn.Timeouts, eConn.ForeignTimeouts)
@@ -690,6 +711,17 @@ func run(p *kernel.Plan) (res *kernel.Result) {
 			}
 		}
 	}
+	// a Close frame no call wrote is the reading goroutine's own (echo, 1009
+	// after the read limit): its reason text is the library's business
+	if closeIdx >= 0 && readErr != nil {
+		rt := frames[closeIdx].Payload
+		if len(rt) >= 2 {
+			rt = rt[2:]
+		}
+		if n := seen[string(rt)]; n == 1 {
+			delete(seen, string(rt))
+		}
+	}
 	for tg, n := range seen {
 		if len(tg) > 0 {
 			return res.Fail("C15/control-unknown", "a control frame with payload %q is on the wire %d times but no call wrote it", clipb([]byte(tg)), n)
@@ -706,9 +738,30 @@ func run(p *kernel.Plan) (res *kernel.Result) {
 	}
 	if closeFrameStep >= 0 {
 		res.Stat("runs_with_close_frame", 1)
+		// "sent": the call that wrote the Close frame has returned (the frame may
+		// be on the wire a moment before the sender has latched it); for a Close
+		// written by the reading goroutine, its read call has returned
+		sentStep := -1
+		ctag := frames[closeIdx].Payload
+		if len(ctag) >= 2 {
+			ctag = ctag[2:]
+		}
 		for _, cs := range calls {
 			for _, c := range cs {
-				if !c.completes || c.step0 <= closeFrameStep {
+				if c.kind == websocket.CloseMessage && c.err == nil && len(c.tag) > 0 && bytes.Equal(c.tag, ctag) {
+					sentStep = c.step1
+				}
+			}
+		}
+		if sentStep < 0 {
+			sentStep = readErrStep
+		}
+		if sentStep < closeFrameStep {
+			sentStep = closeFrameStep
+		}
+		for _, cs := range calls {
+			for _, c := range cs {
+				if !c.completes || c.step0 <= sentStep || sentStep < 0 {
 					continue
 				}
 				res.Stat("calls_after_close_frame", 1)
